@@ -4,7 +4,8 @@ package main
 // PacketHeader.ReadFrom) over the in-memory transport with a read schedule and a scripted end.
 //
 //   rd <fin> <k> <sched> <pkt>,<pkt>,…
-//     <fin>   e = peer closes (EOF), r = read error (reset), h = nothing more arrives (hang)
+//     <fin>   e = peer closes (EOF), E = peer closes and the transport reports the end together with the last bytes,
+//             r = read error (reset), h = nothing more arrives (hang)
 //     <k>     the stream ends after k bytes (k = -1: after the whole stream)
 //     <sched> sizes of the successive reads, `.`-separated (`-` = as much as asked)
 //     <pkt>   d<n>: a packet whose body is n DONE packages (count = running number), on channel 0, EOM set
@@ -97,6 +98,9 @@ func rdImpl(line string) string {
 	mc.feed(stream)
 	switch f[1] {
 	case "e":
+		mc.end()
+	case "E":
+		mc.eofWithData = true
 		mc.end()
 	case "r":
 		mc.fail(errors.New("connection reset by peer"))
@@ -219,6 +223,7 @@ func init() {
 				for _, sp := range specs {
 					for _, sc := range scheds {
 						emit(Case{Line: fmt.Sprintf("rd h -1 %s %s", sc, sp), Kind: "schedule"})
+						emit(Case{Line: fmt.Sprintf("rd E -1 %s %s", sc, sp), Kind: "schedule-eof-with-data"})
 					}
 					n := 30
 					if tier == "thorough" {
@@ -240,6 +245,7 @@ func init() {
 				for k := 1; k <= total+1; k++ {
 					emit(Case{Line: fmt.Sprintf("wf %d %d", n, k), Kind: "write-failure"})
 					emit(Case{Line: fmt.Sprintf("wf %d %d full", n, k), Kind: "write-failure-full-count"})
+					emit(Case{Line: fmt.Sprintf("wf %d %d once", n, k), Kind: "write-failure-once"})
 				}
 			}
 			// channel level: result sets over the data types of the fields group, cut at every offset (quick: a
@@ -277,6 +283,10 @@ func init() {
 					emit(Case{Line: fmt.Sprintf("rd h %d %s %s", k, sc, sp), Kind: "hang"})
 					if isBound[k] || tier == "thorough" || k%11 == 3 {
 						emit(Case{Line: fmt.Sprintf("rd e %d %s %s", k, sc, sp), Kind: "eof"})
+						if k > 0 {
+							// the end reported together with the last bytes (io.Reader allows it)
+							emit(Case{Line: fmt.Sprintf("rd E %d %s %s", k, sc, sp), Kind: "eof-with-data"})
+						}
 					}
 				}
 			}
@@ -319,7 +329,7 @@ func init() {
 			n, _ := strconv.Atoi(f[1])
 			k, _ := strconv.Atoi(f[2])
 			total := (n + 503) / 504
-			if len(f) == 4 { // the failing write reports the full count together with the error
+			if len(f) == 4 && f[3] == "full" { // the failing write reports the full count together with the error
 				switch {
 				case strings.Contains(out, "panic") || strings.Contains(out, "blocked"):
 					return "a failing request write neither crashes nor blocks the caller"
@@ -493,14 +503,15 @@ func wfImpl(line string) (out string) {
 		}
 	}()
 	f := strings.Fields(line)
-	if len(f) != 3 && !(len(f) == 4 && f[3] == "full") {
+	if len(f) != 3 && !(len(f) == 4 && (f[3] == "full" || f[3] == "once")) {
 		return "bad-op"
 	}
 	n, _ := strconv.Atoi(f[1])
 	k, _ := strconv.Atoi(f[2])
 	mc := newMemConn()
 	mc.failWriteAt = k
-	mc.failFull = len(f) == 4
+	mc.failFull = len(f) == 4 && f[3] == "full"
+	mc.failOnce = len(f) == 4 && f[3] == "once" // only this write fails (a write deadline, a signal): later ones would succeed
 	conn, _ := tds.VerifNewConn(context.Background(), mc, testInfo(), false)
 	defer conn.VerifCancel()
 	ch := conn.VerifNewChannel(0)
